@@ -14,6 +14,7 @@ From Coq Require Import List ZArith Bool Arith.
 Import ListNotations.
 From TI Require Import model.RArgs proofs.RArgsBasics proofs.RArgsProofs proofs.RArgsOps
      proofs.RArgsLaws proofs.RArgsTags.
+From TI Require Import model.RArgsVal proofs.RArgsValProofs.
 
 (** the invariant holds initially *)
 Theorem C16_initial_heap_wf : forall F, wf_forest F -> WF F heap0.
@@ -211,3 +212,202 @@ Theorem C16_renderable_meta :
   forall bases, renderable_meta bases = true <-> In true bases.
 Proof. exact renderable_meta_iff. Qed.
 Print Assumptions C16_renderable_meta.
+
+(** * Field VALUES (model/RArgsVal.v)
+
+    The theorems above take field values to be integers.  The rejection and assignment
+    rules of the namespace classes are statements about field NAMES: below they are proved
+    over a universe of Python values [val] (ints, [False]/[True], integral floats, [None],
+    [Ellipsis], strings, [()], NaN-like objects that are unequal to themselves) for EVERY
+    value, every position of the offending keyword among the others and every split
+    between positional and keyword arguments.  [py_eq] is Python's [==] on the universe,
+    [hkey] what [hash] depends on. *)
+
+(** Python's [==] on the universe: [a == b] iff [a] is not NaN-like and both have the same
+    hash key; hence symmetric, transitive, reflexive exactly off the NaN-like objects, and
+    equal values hash equal ([0 == False == 0.0] included) *)
+Theorem C16_value_eq_iff :
+  forall a b, py_eq a b = true <-> is_nan a = false /\ hkey a = hkey b.
+Proof. exact py_eq_iff. Qed.
+Print Assumptions C16_value_eq_iff.
+
+Theorem C16_value_eq_laws :
+  (forall a b, py_eq a b = py_eq b a) /\
+  (forall a b c, py_eq a b = true -> py_eq b c = true -> py_eq a c = true) /\
+  (forall a, py_eq a a = true <-> is_nan a = false) /\
+  (forall a b, py_eq a b = true -> hkey a = hkey b).
+Proof. exact py_eq_laws. Qed.
+Print Assumptions C16_value_eq_laws.
+
+Theorem C16_value_eq_table :
+  py_eq (VInt 0) (VBool false) = true /\ py_eq (VBool true) (VFloat 1) = true /\
+  hkey (VInt 0) = hkey (VBool false) /\ hkey (VBool false) = hkey (VFloat 0) /\
+  py_eq VNone (VInt 0) = false /\ py_eq VNone (VBool false) = false /\
+  py_eq (VStr 0) (VInt 0) = false /\ py_eq VEmptyTuple (VBool false) = false /\
+  py_eq VNone VNone = true /\ py_eq VEllipsis VNone = false /\
+  (forall i, py_eq (VNan i) (VNan i) = false).
+Proof. exact py_eq_table. Qed.
+Print Assumptions C16_value_eq_table.
+
+(** unknown fields are rejected by [update] for EVERY value [v] given for the unknown name
+    [j], whatever other keywords stand before ([kw1]) or after ([kw2]) it and whatever the
+    current field values *)
+Theorem C16_update_rejects_unknown_field_for_every_value :
+  forall nf f kw1 j v kw2,
+    nf <= j -> nupdate nf f (kw1 ++ (j, v) :: kw2) = NErr NEUnknown.
+Proof. exact update_rejects_unknown. Qed.
+Print Assumptions C16_update_rejects_unknown_field_for_every_value.
+
+Theorem C16_update_accepts_iff_all_names_known :
+  forall nf f kw,
+    (exists r, nupdate nf f kw = NOk r) <-> (forall j v, In (j, v) kw -> j < nf).
+Proof. exact update_accepts_iff. Qed.
+Print Assumptions C16_update_accepts_iff_all_names_known.
+
+(** ... and by the constructor for every value and EVERY split between positional values
+    [pos] (any number of them, the full list included) and keywords: the call fails, with
+    [UnknownArgsFieldError] unless there are also more positional values than fields *)
+Theorem C16_constructor_rejects_unknown_field_for_every_value_and_split :
+  forall dfl pos kw1 j v kw2,
+    length dfl <= j ->
+    nctor dfl pos (kw1 ++ (j, v) :: kw2) =
+    NErr (if length dfl <? length pos then NEType else NEUnknown).
+Proof. exact ctor_rejects_unknown. Qed.
+Print Assumptions C16_constructor_rejects_unknown_field_for_every_value_and_split.
+
+(** constructor and [update] ARE the field-by-field rule ([spec_nctor] / [spec_nupdate]:
+    the value given by keyword, else by position, else the default / the previous value;
+    the documented errors), for all values *)
+Theorem C16_constructor_is_the_field_rule :
+  forall dfl pos kw, nctor dfl pos kw = spec_nctor dfl pos kw.
+Proof. exact nctor_is_rule. Qed.
+Print Assumptions C16_constructor_is_the_field_rule.
+
+Theorem C16_update_is_the_field_rule :
+  forall nf f kw,
+    length f = nf ->
+    match nupdate nf f kw with
+    | NErr e => spec_nupdate nf f kw = NErr e
+    | NOk None => kw = [] /\ spec_nupdate nf f kw = NOk f
+    | NOk (Some f') => kw <> [] /\ spec_nupdate nf f kw = NOk f'
+    end.
+Proof. exact nupdate_is_rule. Qed.
+Print Assumptions C16_update_is_the_field_rule.
+
+(** known fields take the value given for them WHATEVER it is ([None], a falsy value, a
+    value equal to the current one, a NaN-like object); the others keep theirs *)
+Theorem C16_update_known_fields_take_the_given_value :
+  forall nf f kw f',
+    length f = nf -> nupdate nf f kw = NOk (Some f') -> NoDup (map fst kw) ->
+    length f' = nf /\
+    (forall j v, In (j, v) kw -> nth_error f' j = Some v) /\
+    (forall j, ~ In j (map fst kw) -> nth_error f' j = nth_error f j).
+Proof. exact update_takes_values. Qed.
+Print Assumptions C16_update_known_fields_take_the_given_value.
+
+Theorem C16_constructor_fields_take_the_given_value :
+  forall dfl pos kw f,
+    nctor dfl pos kw = NOk f -> NoDup (map fst kw) ->
+    length f = length dfl /\
+    (forall j v, In (j, v) kw -> nth_error f j = Some v) /\
+    (forall j, j < length pos -> nth_error f j = nth_error pos j) /\
+    (forall j, length pos <= j -> ~ In j (map fst kw) -> nth_error f j = nth_error dfl j).
+Proof. exact ctor_takes_values. Qed.
+Print Assumptions C16_constructor_fields_take_the_given_value.
+
+(** namespace PROGRAMS (constructor, [update], [RenderArgs.update(render_cls, fields...)],
+    field reads on a heap of instances that starts with the shared default instances):
+    every operation denotes what the rule says, the heap only grows — no live instance is
+    altered — and a rejected call changes nothing *)
+Theorem C16_namespace_operation_obeys_the_rule :
+  forall cl h env senv o,
+    WFn cl h -> Forall2 (nagree h) env senv ->
+    let hr := nstep_op cl h env o in
+    nagree (fst hr) (snd hr) (spec_nop cl senv o) /\
+    WFn cl (fst hr) /\ (exists t, fst hr = h ++ t) /\ (forall e, snd hr = NErr e -> fst hr = h).
+Proof. exact nstep_refines. Qed.
+Print Assumptions C16_namespace_operation_obeys_the_rule.
+
+Theorem C16_namespace_programs_obey_the_rule :
+  forall cl p,
+    WFn cl (fst (nrun cl p)) /\
+    Forall2 (nagree (fst (nrun cl p))) (snd (nrun cl p)) (spec_nrun cl p).
+Proof. exact nrun_refines. Qed.
+Print Assumptions C16_namespace_programs_obey_the_rule.
+
+Theorem C16_namespace_programs_never_alter_instances :
+  forall cl p q i o,
+    nth_error (fst (nrun cl p)) i = Some o -> nth_error (fst (nrun cl (p ++ q))) i = Some o.
+Proof. exact nrun_heap_monotone. Qed.
+Print Assumptions C16_namespace_programs_never_alter_instances.
+
+Theorem C16_shared_default_namespace_never_altered :
+  forall cl p c,
+    c < length cl -> nth_error (fst (nrun cl p)) c = Some (c, nth c cl []).
+Proof. exact defaults_never_altered. Qed.
+Print Assumptions C16_shared_default_namespace_never_altered.
+
+(** the unknown-field rule at the level of operations, through both [update] routes and the
+    constructor: [UnknownArgsFieldError], heap untouched *)
+Theorem C16_operation_update_unknown_field :
+  forall cl h env x i c f kw1 j v kw2,
+    nlookup h env x = Some (i, (c, f)) -> nfields cl c <= j ->
+    nstep_op cl h env (NUpdate x (kw1 ++ (j, v) :: kw2)) = (h, NErr NEUnknown).
+Proof. exact op_update_unknown. Qed.
+Print Assumptions C16_operation_update_unknown_field.
+
+Theorem C16_operation_render_args_update_unknown_field :
+  forall cl h env x m i c f kw1 j v kw2,
+    nlookup h env x = Some (i, (c, f)) -> c <= m < length cl -> nfields cl c <= j ->
+    nstep_op cl h env (NRaUpdate x m (kw1 ++ (j, v) :: kw2)) = (h, NErr NEUnknown).
+Proof. exact op_ra_update_unknown. Qed.
+Print Assumptions C16_operation_render_args_update_unknown_field.
+
+Theorem C16_operation_constructor_unknown_field :
+  forall cl h env c dfl pos kw1 j v kw2,
+    nth_error cl c = Some dfl -> length dfl <= j ->
+    nstep_op cl h env (NCtor c pos (kw1 ++ (j, v) :: kw2)) =
+    (h, NErr (if length dfl <? length pos then NEType else NEUnknown)).
+Proof. exact op_ctor_unknown. Qed.
+Print Assumptions C16_operation_constructor_unknown_field.
+
+Theorem C16_render_args_update_is_namespace_update :
+  forall cl h env x m i c f kw,
+    nlookup h env x = Some (i, (c, f)) -> c <= m < length cl ->
+    nstep_op cl h env (NRaUpdate x m kw) = nstep_op cl h env (NUpdate x kw).
+Proof. exact ra_update_is_ns_update. Qed.
+Print Assumptions C16_render_args_update_is_namespace_update.
+
+(** [==] / [hash] of namespace instances over the universe: equal instances hash equal;
+    [==] is an equivalence on live instances (reflexive by identity even with a NaN-like
+    field); two distinct instances are equal iff same class and pairwise [==] values *)
+Theorem C16_namespace_value_eq_hash :
+  forall h i j, nobj_eq h i j = true -> nobj_hash h i = nobj_hash h j.
+Proof. exact nobj_eq_hash. Qed.
+Print Assumptions C16_namespace_value_eq_hash.
+
+Theorem C16_namespace_value_eq_equivalence :
+  (forall (h : list nobj) i o, nth_error h i = Some o -> nobj_eq h i i = true) /\
+  (forall h i j, nobj_eq h i j = nobj_eq h j i) /\
+  (forall h i j k, nobj_eq h i j = true -> nobj_eq h j k = true -> nobj_eq h i k = true).
+Proof. exact nobj_eq_equivalence. Qed.
+Print Assumptions C16_namespace_value_eq_equivalence.
+
+Theorem C16_namespace_value_eq_distinct_instances :
+  forall (h : list nobj) i j c f c' f',
+    nth_error h i = Some (c, f) -> nth_error h j = Some (c', f') -> i <> j ->
+    nobj_eq h i j = sv_eq (SObj c f) (SObj c' f').
+Proof. exact nobj_eq_distinct. Qed.
+Print Assumptions C16_namespace_value_eq_distinct_instances.
+
+(** the integer-valued field update of [model/RArgs.v] (used by every theorem of the first
+    part) is the restriction of this layer to [VInt] *)
+Theorem C16_integer_model_is_the_restriction_to_ints :
+  forall F c f fields,
+    nupdate (length (dflt F c)) (map VInt f) (kw_of_Z fields) =
+    match ns_update F c f fields with
+    | Ok f' => NOk (match fields with [] => None | _ => Some (map VInt f') end)
+    | Err _ => NErr NEUnknown
+    end.
+Proof. exact int_model_embeds. Qed.
+Print Assumptions C16_integer_model_is_the_restriction_to_ints.
